@@ -20,7 +20,8 @@ RULE = ("cases: dataset length 0-60 (decodable samples X[i]=(i,2i+1), y[i]=i) x 
         "one-hot.  non-trivial: n not a multiple of the batch size, or both splits strictly between 0 and 1, or "
         "shuffle on, or labels with gaps; distinct by hash of the case"
         " Also: label/feature arrays with trailing dimensions, transforms returning a 3-tuple / dict / arbitrary object (the yielded batch must be that object), labels a narrower type would merge (doubles 1e-9 apart, integers beyond 2^24 / 2^31)."
-        " Round 5: falsy transform objects; split fractions within 1e-9..1e-12 below j/n and nextafter(1, 0).")
+        " Round 5: falsy transform objects; split fractions within 1e-9..1e-12 below j/n and nextafter(1, 0)."
+        " Round 6: indexed reads loader[i] in the middle of a pass.")
 ASSUMPTIONS = ["sample ids < 2^24 so they are exact in the float32 arrays split_dataset returns",
                "the floor rule may be evaluated in float64 or in exact rational arithmetic; both are accepted"]
 
